@@ -632,6 +632,30 @@ def r24_13(ctx, rep):
         raise MechanismMissing(R, "no rendering of the unary operand found in the unary branch")
 
 
+@SPEC.rule(
+    "R24.14",
+    "the equation list is the class's equation list: the template of SympyGenerator.exitClass fills `self.eqs` by iterating `tree.equations` and "
+    "printing `render.src[<that equation>]` — a list collected while walking also holds the initial equations (the walker visits them first) "
+    "and the equations of nested constructs",
+)
+def r24_14(ctx, rep):
+    R = "R24.14"
+    mod = ctx.module(SYM, R)
+    site = SYM + ":SympyGenerator.exitClass (template)"
+    hit = None
+    for c in ast.walk(mod):
+        if isinstance(c, ast.Constant) and isinstance(c.value, str) and "self.eqs" in c.value and "{%" in c.value:
+            m_ = re.search(r"self\.eqs\s*=\s*\[(.*?)\]\s*\n", c.value, flags=re.S)
+            if m_:
+                hit = m_.group(1)
+    if hit is None:
+        raise MechanismMissing(R, "the `self.eqs = [...]` block was not found in the module template")
+    loop = re.search(r"\{%-?\s*for\s+(\w+)\s+in\s+([\w\.]+)\s*-?%\}", hit)
+    ok = bool(loop) and loop.group(2) == "tree.equations" and re.search(r"\{\{\s*render\.src\[\s*%s\s*\]\s*\}\}" % (loop.group(1) if loop else "x"), hit) is not None
+    rep.ob(R, site, "self.eqs lists the rendered tree.equations", ok,
+           "the block is `%s`: the generated model's equations are not (only) the class's equations in their order" % " ".join(hit.split())[:120])
+
+
 # -- seeded variants ---------------------------------------------------------
 from ._mut import replace_in_func  # noqa: E402
 
